@@ -20,10 +20,12 @@ theorem runOps_append_saveNew (fs : FS σ) (w : σ) (rest : List (Op σ)) :
     runOps fs (saveNew w ++ rest) = runOps (savedFS fs w) rest := by
   simp [saveNew, runOps, applyOp, FS.set, FS.get, move, savedFS]
 
-/-- The five crash states of one `save_simulation`. -/
+/-- The crash states of one `save_simulation`: before `open`, after `open`, inside the write, after the
+(buffered) write, after the close, after the replace. -/
 theorem crashStates_saveNew (fs : FS σ) (w : σ) :
     crashStates fs (saveNew w) =
-      [fs, fs.set .new .part, fs.set .new .part, fs.set .new (.complete w), savedFS fs w] := by
+      [fs, fs.set .new .part, fs.set .new .part, fs.set .new .part, fs.set .new (.complete w),
+        savedFS fs w] := by
   simp [saveNew, crashStates, midStates, applyOp, FS.set, FS.get, move, savedFS]
 
 theorem afterSaves_snoc (fs : FS σ) (vs : List σ) (v : σ) :
